@@ -129,7 +129,7 @@ def r4_whole_value_stores(ctx):
                     )
 
 
-def r5_per_call_state_is_local(ctx):
+def _skeleton_r5_per_call_state_is_local(ctx):
     """Every name the generated entry point mutates during a call is created by the entry point itself in that call."""
     from ..skeleton import emissions
 
@@ -169,6 +169,12 @@ def r6(ctx):
     from .c05 import r1_derived_tables_flushed
 
     r1_derived_tables_flushed(ctx)
+
+
+def r5_per_call_state_is_local(ctx):
+    from .c03 import _with_fallback
+
+    _with_fallback(ctx, ("per-call-state",), _skeleton_r5_per_call_state_is_local)
 
 
 RULES = [
